@@ -1,31 +1,670 @@
-// Package c14: sequence functions and their keyword arguments.
+// Package c14: sequence functions honour their keyword arguments on lists,
+// vectors and strings. Every call of a bounded space (function x sequence
+// type x sequence x keyword combination) is evaluated by the real slip and
+// compared with a reference written from the language definition on Go slices.
 package c14
 
 import (
+	"fmt"
+	"strconv"
 	"strings"
 
 	"verif/engine"
-	"verif/lisp"
 )
 
 func init() {
 	engine.Register(&engine.Prop{
-		ID:        "C14",
-		Level:     "exploration",
-		Enumerate: func(tier string, emit func(string)) {},
+		ID:    "C14",
+		Level: "exploration",
+		Rule: "every call (function x sequence type x every sequence up to the length bound x every keyword combination with in-range " +
+			"bounds, see bound_completed) is written as Lisp source with literal sequences, evaluated through ReadString+Eval in a fresh " +
+			"scope, the result is rendered by a Go type switch and compared with a reference implementation written from the language " +
+			"definition on Go slices; a case is non-trivial when the sequence arguments are non-empty and at least one keyword argument " +
+			"is given, or (functions without keywords) when they hold at least two elements",
+		Assumptions: []string{
+			"elements are symbols, characters and (symbol . id) pairs, on which slip's documented default test equal agrees with eql",
+			"harness-defined callbacks c14-lt (strict order on the alphabet) and c14-pair (reducing function) are trusted",
+			"functions slip does not define (find-if-not, position-if-not, count-if-not, remove-if-not, delete-if-not, substitute-if-not, " +
+				"member-if-not, rassoc-if-not) and :test-not (documented by no sequence function) are not demanded",
+			"only in-range bounding indices and sorted merge inputs are enumerated",
+		},
+		Enumerate: enumerate,
 		Exec:      exec,
+		Required: []string{"kw:start", "kw:end", "kw:key", "kw:test", "kw:count", "kw:from-end", "kw:start2", "kw:end2",
+			"combo:from-end+count+bounds", "combo:key+test", "combo:key+test-on-string", "seq:list", "seq:vector", "seq:string", "seq:nil",
+			"stable-sort:equal-keys", "merge:equal-keys", "fam:item", "fam:if", "fam:substitute", "fam:substitute-if", "fam:duplicates",
+			"fam:reverse", "fam:two-sequence", "fam:subseq", "fam:fill", "fam:sort", "fam:merge", "fam:set", "fam:quantifier", "fam:map",
+			"fam:reduce", "fam:concatenate"},
+		Bound:    bound,
+		Selftest: selftest,
 	})
 }
 
-func exec(spec string) (res engine.Result) {
-	if strings.HasPrefix(spec, "probe|") {
-		v, err := lisp.Eval(spec[6:])
-		if err != nil {
-			res.Outcome = "ERR " + err.String()
-		} else {
-			res.Outcome = lisp.Show(v)
-		}
-		return
+// cfg is the bound of a tier.
+type cfg struct {
+	itemL    int    // item / -if / substitute / duplicates families: max length
+	letters  string // list and vector alphabet
+	sletters string // string alphabet
+	items    string // items searched for
+	edgeL    int    // max length for the :count nil / negative and :test-not grids
+	assocL   int
+	twoL1    int // search/mismatch/replace: pattern / target length
+	twoL2    int
+	twoAB    string
+	twoSAB   string
+	subL     int
+	sortL    int
+	sortSL   int
+	sortAB   string
+	sortSAB  string
+	mergeL   int
+	setL     int
+	quantL1  int
+	quantL2  int
+	mapL     int
+	reduceL  int
+	concatN  int
+	concatL  int
+}
+
+func config(tier string) cfg {
+	if tier == engine.Thorough {
+		return cfg{itemL: 5, letters: "abc", sletters: "bBc", items: "b", edgeL: 4, assocL: 5,
+			twoL1: 3, twoL2: 4, twoAB: "ab", twoSAB: "aAb", subL: 6, sortL: 8, sortSL: 6, sortAB: "abc", sortSAB: "aAbB",
+			mergeL: 4, setL: 4, quantL1: 6, quantL2: 4, mapL: 4, reduceL: 5, concatN: 3, concatL: 2}
 	}
-	return
+	return cfg{itemL: 4, letters: "abc", sletters: "bBc", items: "b", edgeL: 3, assocL: 4,
+		twoL1: 2, twoL2: 3, twoAB: "ab", twoSAB: "aAb", subL: 4, sortL: 6, sortSL: 5, sortAB: "abc", sortSAB: "aAb",
+		mergeL: 3, setL: 3, quantL1: 4, quantL2: 3, mapL: 3, reduceL: 4, concatN: 2, concatL: 2}
+}
+
+func bound(tier string) string {
+	c := config(tier)
+	extra := ""
+	if tier == engine.Thorough {
+		extra = "; additionally the item/-if/substitute families over the 4-letter alphabets abcd / abBc with items a b c up to length 4"
+	}
+	return fmt.Sprintf("find position count remove delete substitute nsubstitute (+ -if) and remove-/delete-duplicates: every list, vector "+
+		"and string of length 0..%d over a 3-letter alphabet (lists/vectors %q, strings %q, item b: an element that matches under eql, "+
+		"one that matches only under the key, one that matches under the order test) x every :start/:end (absent, explicit, :end nil) "+
+		"x :key (absent, car on (sym . id) pairs / char-downcase) x :test (absent, eql, an order lambda) x :count (absent 0 1 2) x "+
+		":from-end; :count nil/-1 and :test-not on length 0..%d; member/assoc/rassoc (+ -if, assoc-if-not) on lists 0..%d; "+
+		"search/mismatch/replace: sequence-1 0..%d x sequence-2 0..%d over %q/%q, all explicit start/end pairs of both, list/vector/string "+
+		"and mixed; subseq/fill/reverse 0..%d; sort/stable-sort 0..%d (strings 0..%d) x two predicates x :key; merge of sorted inputs "+
+		"0..%d each x result types; union/intersection/set-difference/subsetp (+ n-variants) lists 0..%d; every/some/notany/notevery one "+
+		"sequence 0..%d, two 0..%d; map/mapcar 0..%d; reduce 0..%d x bounds x :key x :from-end x :initial-value; concatenate of up to %d "+
+		"sequences 0..%d%s",
+		c.itemL, c.letters, c.sletters, c.edgeL, c.assocL, c.twoL1, c.twoL2, c.twoAB, c.twoSAB, c.subL, c.sortL, c.sortSL, c.mergeL,
+		c.setL, c.quantL1, c.quantL2, c.mapL, c.reduceL, c.concatN, c.concatL, extra)
+}
+
+// allSeqs: every word over letters of length 0..max, shortest first.
+func allSeqs(letters string, max int) []string {
+	out := []string{""}
+	prev := []string{""}
+	for n := 1; n <= max; n++ {
+		var next []string
+		for _, p := range prev {
+			for _, l := range letters {
+				next = append(next, p+string(l))
+			}
+		}
+		out = append(out, next...)
+		prev = next
+	}
+	return out
+}
+
+type bnd struct {
+	hasS, hasE, eNil bool
+	s, e             int
+}
+
+// fullBounds: start in {absent, 0..n} x end in {absent, start..n}, plus :end nil.
+func fullBounds(n int) []bnd {
+	out := []bnd{{}}
+	for e := 0; e <= n; e++ {
+		out = append(out, bnd{hasE: true, e: e})
+	}
+	out = append(out, bnd{hasE: true, eNil: true})
+	for s := 0; s <= n; s++ {
+		out = append(out, bnd{hasS: true, s: s})
+		for e := s; e <= n; e++ {
+			out = append(out, bnd{hasS: true, s: s, hasE: true, e: e})
+		}
+	}
+	return out
+}
+
+// pairBounds: absent/absent plus every explicit in-range pair.
+func pairBounds(n int) []bnd {
+	out := []bnd{{}}
+	for s := 0; s <= n; s++ {
+		for e := s; e <= n; e++ {
+			out = append(out, bnd{hasS: true, s: s, hasE: true, e: e})
+		}
+	}
+	return out
+}
+
+func (c *call) setBounds(b bnd) {
+	c.hasStart, c.start, c.hasEnd, c.end, c.endNil = b.hasS, b.s, b.hasE, b.e, b.eNil
+}
+
+func (c *call) setBounds2(b bnd) {
+	c.hasStart2, c.start2, c.hasEnd2, c.end2, c.endNil2 = b.hasS, b.s, b.hasE, b.e, b.eNil
+}
+
+// typVariants: the sequence types a sequence is written in. An empty list is
+// written both as '() and as nil.
+func typVariants(types string, seq string) []byte {
+	var out []byte
+	for i := 0; i < len(types); i++ {
+		out = append(out, types[i])
+		if types[i] == 'L' && seq == "" {
+			out = append(out, 'N')
+		}
+	}
+	return out
+}
+
+var (
+	itemFns    = []string{"find", "position", "count", "remove", "delete"}
+	ifFns      = []string{"find-if", "position-if", "count-if", "remove-if", "delete-if"}
+	substFns   = []string{"substitute", "nsubstitute"}
+	substIfFns = []string{"substitute-if", "nsubstitute-if"}
+	dupFns     = []string{"remove-duplicates", "delete-duplicates"}
+	setFns     = []string{"union", "nunion", "intersection", "nintersection", "set-difference", "nset-difference", "subsetp"}
+	quantFns   = []string{"every", "some", "notany", "notevery"}
+)
+
+func hasCountKw(fn string) bool {
+	switch fn {
+	case "remove", "delete", "remove-if", "delete-if", "substitute", "nsubstitute", "substitute-if", "nsubstitute-if":
+		return true
+	}
+	return false
+}
+
+// enumerate emits every case of the tier; only (optional) is a function-name
+// filter used by the self-test.
+func enumerate(tier string, emit func(string)) { enumerateFn(tier, "", emit) }
+
+func enumerateFn(tier, only string, emit func(string)) {
+	cf := config(tier)
+	out := func(c *call) { emit(c.spec()) }
+	want := func(fn string) bool { return only == "" || only == fn }
+
+	// ---- item / -if / substitute families
+	itemGrid := func(fn string, letters, sletters, items string, maxL int) {
+		isIf := family(fn) == famIf || family(fn) == famSubstIf
+		for _, typ := range "LVS" {
+			ab := letters
+			if typ == 'S' {
+				ab = sletters
+			}
+			for _, seq := range allSeqs(ab, maxL) {
+				for _, t := range typVariants(string(typ), seq) {
+					its := items
+					if isIf {
+						its = "-"
+					}
+					for _, item := range its {
+						for _, b := range fullBounds(len(seq)) {
+							for _, key := range []bool{false, true} {
+								tests := []string{"", "eql", "lam"}
+								preds := []string{""}
+								if isIf {
+									tests = []string{""}
+									preds = []string{"eq", "gt"}
+								}
+								for _, test := range tests {
+									for _, pred := range preds {
+										counts := []string{""}
+										if hasCountKw(fn) {
+											counts = []string{"", "0", "1", "2"}
+										}
+										for _, cnt := range counts {
+											for _, fe := range []bool{false, true} {
+												c := &call{fn: fn, typs: string(t), seqs: []string{seq}, key: key, test: test, pred: pred, count: cnt, fromEnd: fe}
+												if !isIf {
+													c.item = string(item)
+												}
+												c.setBounds(b)
+												out(c)
+											}
+										}
+									}
+								}
+							}
+						}
+					}
+				}
+			}
+		}
+	}
+	var allItem []string
+	allItem = append(allItem, itemFns...)
+	allItem = append(allItem, ifFns...)
+	allItem = append(allItem, substFns...)
+	allItem = append(allItem, substIfFns...)
+	for _, fn := range allItem {
+		if want(fn) {
+			itemGrid(fn, cf.letters, cf.sletters, cf.items, cf.itemL)
+		}
+	}
+	// :count nil / negative, :test-not (accepted: the defined value or a Lisp error)
+	for _, fn := range allItem {
+		if !want(fn) {
+			continue
+		}
+		isIf := family(fn) == famIf || family(fn) == famSubstIf
+		for _, typ := range "LVS" {
+			ab := cf.letters
+			if typ == 'S' {
+				ab = cf.sletters
+			}
+			for _, seq := range allSeqs(ab, cf.edgeL) {
+				for _, fe := range []bool{false, true} {
+					mk := func() *call {
+						c := &call{fn: fn, typs: string(typ), seqs: []string{seq}, fromEnd: fe}
+						if isIf {
+							c.pred = "eq"
+						} else {
+							c.item = "b"
+						}
+						return c
+					}
+					if hasCountKw(fn) {
+						for _, cnt := range []string{"nil", "-1"} {
+							c := mk()
+							c.count = cnt
+							out(c)
+						}
+					}
+					if !isIf {
+						for _, key := range []bool{false, true} {
+							c := mk()
+							c.test, c.key = "not", key
+							out(c)
+						}
+					}
+				}
+			}
+		}
+	}
+
+	// ---- remove-duplicates / delete-duplicates
+	for _, fn := range dupFns {
+		if !want(fn) {
+			continue
+		}
+		for _, typ := range "LVS" {
+			ab := cf.letters
+			if typ == 'S' {
+				ab = cf.sletters
+			}
+			for _, seq := range allSeqs(ab, cf.itemL) {
+				for _, t := range typVariants(string(typ), seq) {
+					for _, b := range fullBounds(len(seq)) {
+						for _, key := range []bool{false, true} {
+							for _, test := range []string{"", "eql", "eqv"} {
+								for _, fe := range []bool{false, true} {
+									c := &call{fn: fn, typs: string(t), seqs: []string{seq}, key: key, test: test, fromEnd: fe}
+									c.setBounds(b)
+									out(c)
+								}
+							}
+						}
+					}
+				}
+			}
+		}
+	}
+
+	// ---- member / assoc / rassoc
+	for _, fn := range []string{"member", "assoc", "rassoc", "member-if", "assoc-if", "assoc-if-not", "rassoc-if"} {
+		if !want(fn) {
+			continue
+		}
+		isIf := family(fn) == famIf
+		for _, seq := range allSeqs(cf.letters, cf.assocL) {
+			for _, t := range typVariants("L", seq) {
+				for _, key := range []bool{false, true} {
+					if isIf {
+						for _, pred := range []string{"eq", "gt"} {
+							out(&call{fn: fn, typs: string(t), seqs: []string{seq}, key: key, pred: pred})
+						}
+						continue
+					}
+					for _, item := range "abc" {
+						for _, test := range []string{"", "eql", "lam"} {
+							out(&call{fn: fn, typs: string(t), seqs: []string{seq}, key: key, test: test, item: string(item)})
+						}
+					}
+				}
+			}
+		}
+	}
+
+	// ---- search / mismatch / replace
+	typePairs := []string{"LL", "VV", "SS", "LV", "VL", "SL", "LS"}
+	for _, fn := range []string{"search", "mismatch", "replace"} {
+		if !want(fn) {
+			continue
+		}
+		for _, tp := range typePairs {
+			ab := cf.twoAB
+			if strings.ContainsRune(tp, 'S') {
+				ab = cf.twoSAB
+			}
+			l1, l2 := cf.twoL1, cf.twoL2
+			if fn == "replace" {
+				l1, l2 = cf.twoL2, cf.twoL1 // the target is the longer one
+			}
+			if tp == "SL" || tp == "LS" { // mixed string / character list: a reduced grid
+				l1, l2 = min(l1, 2), min(l2, 2)
+			}
+			for _, s1 := range allSeqs(ab, l1) {
+				for _, t1 := range typVariants(tp[:1], s1) {
+					for _, s2 := range allSeqs(ab, l2) {
+						for _, t2 := range typVariants(tp[1:], s2) {
+							for _, b1 := range pairBounds(len(s1)) {
+								for _, b2 := range pairBounds(len(s2)) {
+									if fn == "replace" {
+										c := &call{fn: fn, typs: string(t1) + string(t2), seqs: []string{s1, s2}}
+										c.setBounds(b1)
+										c.setBounds2(b2)
+										out(c)
+										continue
+									}
+									for _, key := range []bool{false, true} {
+										for _, test := range []string{"", "eql", "lam"} {
+											for _, fe := range []bool{false, true} {
+												c := &call{fn: fn, typs: string(t1) + string(t2), seqs: []string{s1, s2}, key: key, test: test, fromEnd: fe}
+												c.setBounds(b1)
+												c.setBounds2(b2)
+												out(c)
+											}
+										}
+									}
+								}
+							}
+						}
+					}
+				}
+			}
+		}
+	}
+
+	// ---- subseq / fill / reverse / nreverse
+	for _, typ := range "LVS" {
+		ab := cf.letters
+		if typ == 'S' {
+			ab = cf.sletters
+		}
+		for _, seq := range allSeqs(ab, cf.subL) {
+			for _, t := range typVariants(string(typ), seq) {
+				n := len(seq)
+				if want("subseq") {
+					for s := 0; s <= n; s++ {
+						out(&call{fn: "subseq", typs: string(t), seqs: []string{seq}, hasStart: true, start: s})
+						out(&call{fn: "subseq", typs: string(t), seqs: []string{seq}, hasStart: true, start: s, subEnd: "nil"})
+						for e := s; e <= n; e++ {
+							out(&call{fn: "subseq", typs: string(t), seqs: []string{seq}, hasStart: true, start: s, subEnd: strconv.Itoa(e)})
+						}
+					}
+				}
+				if want("fill") {
+					for _, b := range fullBounds(n) {
+						c := &call{fn: "fill", typs: string(t), seqs: []string{seq}}
+						c.setBounds(b)
+						out(c)
+					}
+				}
+				for _, fn := range []string{"reverse", "nreverse"} {
+					if want(fn) {
+						out(&call{fn: fn, typs: string(t), seqs: []string{seq}})
+					}
+				}
+			}
+		}
+	}
+
+	// ---- sort / stable-sort
+	for _, fn := range []string{"sort", "stable-sort"} {
+		if !want(fn) {
+			continue
+		}
+		for _, typ := range "LVS" {
+			ab, l := cf.sortAB, cf.sortL
+			if typ == 'S' {
+				ab, l = cf.sortSAB, cf.sortSL
+			}
+			for _, seq := range allSeqs(ab, l) {
+				for _, t := range typVariants(string(typ), seq) {
+					for _, pred := range []string{"lt", "gtp"} {
+						for _, key := range []bool{false, true} {
+							out(&call{fn: fn, typs: string(t), seqs: []string{seq}, pred: pred, key: key})
+						}
+					}
+				}
+			}
+		}
+	}
+
+	// ---- merge (sorted inputs only)
+	if want("merge") {
+		for _, tp := range []string{"LL", "VV", "LV", "VL", "SS", "SL", "LS"} {
+			ab := cf.sortAB
+			rtypes := []string{"list", "vector"}
+			if strings.ContainsRune(tp, 'S') {
+				ab = cf.sortSAB
+				rtypes = []string{"list", "vector", "string"}
+			}
+			for _, s1 := range allSeqs(ab, cf.mergeL) {
+				for _, s2 := range allSeqs(ab, cf.mergeL) {
+					for _, t1 := range typVariants(tp[:1], s1) {
+						for _, t2 := range typVariants(tp[1:], s2) {
+							for _, rt := range rtypes {
+								for _, pred := range []string{"lt", "gtp"} {
+									for _, key := range []bool{false, true} {
+										c := &call{fn: "merge", typs: string(t1) + string(t2), seqs: []string{s1, s2}, pred: pred, key: key, rtype: rt}
+										if c.valid() {
+											out(c)
+										}
+									}
+								}
+							}
+						}
+					}
+				}
+			}
+		}
+	}
+
+	// ---- union / intersection / set-difference / subsetp
+	for _, fn := range setFns {
+		if !want(fn) {
+			continue
+		}
+		for _, s1 := range allSeqs(cf.letters, cf.setL) {
+			for _, s2 := range allSeqs(cf.letters, cf.setL) {
+				for _, t1 := range typVariants("L", s1) {
+					for _, t2 := range typVariants("L", s2) {
+						for _, key := range []bool{false, true} {
+							tests := []string{"", "eql", "eqv"}
+							switch fn {
+							case "set-difference", "nset-difference", "subsetp":
+								tests = append(tests, "lam")
+							}
+							for _, test := range tests {
+								out(&call{fn: fn, typs: string(t1) + string(t2), seqs: []string{s1, s2}, key: key, test: test})
+							}
+						}
+					}
+				}
+			}
+		}
+	}
+
+	// ---- every / some / notany / notevery
+	for _, fn := range quantFns {
+		if !want(fn) {
+			continue
+		}
+		for _, typ := range "LVS" {
+			ab := cf.letters
+			if typ == 'S' {
+				ab = cf.sletters
+			}
+			for _, seq := range allSeqs(ab, cf.quantL1) {
+				for _, t := range typVariants(string(typ), seq) {
+					for _, pred := range []string{"eq", "gt"} {
+						out(&call{fn: fn, typs: string(t), seqs: []string{seq}, pred: pred})
+					}
+				}
+			}
+		}
+		for _, tp := range []string{"LL", "VV", "SS", "LV", "VL", "LS", "SV"} {
+			ab := cf.letters
+			if strings.ContainsRune(tp, 'S') {
+				ab = cf.sletters
+			}
+			for _, s1 := range allSeqs(ab, cf.quantL2) {
+				for _, s2 := range allSeqs(ab, cf.quantL2) {
+					for _, t1 := range typVariants(tp[:1], s1) {
+						for _, t2 := range typVariants(tp[1:], s2) {
+							for _, pred := range []string{"eq2", "lt2"} {
+								out(&call{fn: fn, typs: string(t1) + string(t2), seqs: []string{s1, s2}, pred: pred})
+							}
+						}
+					}
+				}
+			}
+		}
+	}
+
+	// ---- map / mapcar
+	if want("map") {
+		for _, typ := range "LVS" {
+			ab := cf.letters
+			if typ == 'S' {
+				ab = cf.sletters
+			}
+			for _, seq := range allSeqs(ab, cf.mapL) {
+				for _, t := range typVariants(string(typ), seq) {
+					for _, rt := range []string{"nil", "list", "vector"} {
+						out(&call{fn: "map", typs: string(t), seqs: []string{seq}, pred: "wrap", rtype: rt})
+					}
+				}
+			}
+			// character results
+			for _, seq := range allSeqs(cf.sletters, cf.mapL) {
+				for _, t := range typVariants(string(typ), seq) {
+					for _, rt := range []string{"string", "list", "vector"} {
+						if typ != 'S' && rt != "string" {
+							continue
+						}
+						out(&call{fn: "map", typs: string(t), seqs: []string{seq}, pred: "up", rtype: rt})
+					}
+				}
+			}
+		}
+		for _, tp := range []string{"LL", "VV", "LV", "VL", "SS", "SL", "VS"} {
+			ab := cf.letters
+			if strings.ContainsRune(tp, 'S') {
+				ab = cf.sletters
+			}
+			for _, s1 := range allSeqs(ab, cf.mapL) {
+				for _, s2 := range allSeqs(ab, cf.mapL) {
+					for _, t1 := range typVariants(tp[:1], s1) {
+						for _, t2 := range typVariants(tp[1:], s2) {
+							for _, rt := range []string{"list", "vector"} {
+								out(&call{fn: "map", typs: string(t1) + string(t2), seqs: []string{s1, s2}, pred: "pair2", rtype: rt})
+							}
+							if strings.ContainsRune(tp, 'S') {
+								out(&call{fn: "map", typs: string(t1) + string(t2), seqs: []string{s1, s2}, pred: "second2", rtype: "string"})
+							}
+						}
+					}
+				}
+			}
+		}
+	}
+	if want("mapcar") {
+		for _, seq := range allSeqs(cf.letters, cf.mapL) {
+			for _, t := range typVariants("L", seq) {
+				out(&call{fn: "mapcar", typs: string(t), seqs: []string{seq}, pred: "wrap"})
+			}
+		}
+		for _, s1 := range allSeqs(cf.letters, cf.mapL) {
+			for _, s2 := range allSeqs(cf.letters, cf.mapL) {
+				for _, t1 := range typVariants("L", s1) {
+					for _, t2 := range typVariants("L", s2) {
+						out(&call{fn: "mapcar", typs: string(t1) + string(t2), seqs: []string{s1, s2}, pred: "pair2"})
+					}
+				}
+			}
+		}
+	}
+
+	// ---- reduce
+	if want("reduce") {
+		for _, typ := range "LVS" {
+			ab := cf.letters
+			if typ == 'S' {
+				ab = cf.sletters
+			}
+			for _, seq := range allSeqs(ab, cf.reduceL) {
+				for _, t := range typVariants(string(typ), seq) {
+					for _, b := range fullBounds(len(seq)) {
+						for _, key := range []bool{false, true} {
+							for _, fe := range []bool{false, true} {
+								for _, init := range []bool{false, true} {
+									c := &call{fn: "reduce", typs: string(t), seqs: []string{seq}, key: key, fromEnd: fe, init: init}
+									c.setBounds(b)
+									out(c)
+								}
+							}
+						}
+					}
+				}
+			}
+		}
+	}
+
+	// ---- concatenate
+	if want("concatenate") {
+		for _, rt := range []string{"list", "vector", "string"} {
+			out(&call{fn: "concatenate", rtype: rt})
+			var rec func(typs string, seqs []string)
+			rec = func(typs string, seqs []string) {
+				if 0 < len(typs) {
+					out(&call{fn: "concatenate", rtype: rt, typs: typs, seqs: append([]string(nil), seqs...)})
+				}
+				if len(typs) == cf.concatN {
+					return
+				}
+				for _, typ := range "LVS" {
+					ab := "ab"
+					for _, seq := range allSeqs(ab, cf.concatL) {
+						for _, t := range typVariants(string(typ), seq) {
+							rec(typs+string(t), append(seqs, seq))
+						}
+					}
+				}
+			}
+			rec("", nil)
+		}
+	}
+
+	// ---- thorough: the item families once more over the 4-letter alphabets and three items
+	if tier == engine.Thorough {
+		for _, fn := range allItem {
+			if want(fn) {
+				itemGrid(fn, "abcd", "abBc", "abc", 4)
+			}
+		}
+	}
 }
